@@ -183,7 +183,12 @@ class RootContextBuilder:
         base = derive_module_name_from_path(config.state.current_file)
 
         if base is None:
-            raise ValueError  # only when the file can't be a module, so never here
+            error.fatal(
+                f"unable to resolve relative imports in "
+                f"{str(config.state.current_file)!r}, the file is not in the module "
+                f"search path",
+                culprit=node,
+            )
 
         module_name = derive_absolute_module_name(base, node.module, node.level)
         (confirmed_module_name, spec) = find_module_name_and_spec(module_name)
@@ -208,7 +213,12 @@ class RootContextBuilder:
         base = derive_module_name_from_path(config.state.current_file)
 
         if base is None:
-            raise ValueError  # only when the file can't be a module, so never here
+            error.fatal(
+                f"unable to resolve relative imports in "
+                f"{str(config.state.current_file)!r}, the file is not in the module "
+                f"search path",
+                culprit=node,
+            )
 
         module_name = derive_absolute_module_name(base, node.module, node.level)
         (confirmed_module_name, spec) = find_module_name_and_spec(module_name)
